@@ -408,6 +408,17 @@ func c17Case(k *fw.K, shape []int, lr lrSpec, src int) {
 				return
 			}
 		}
+		// the tensor now behind the pointer has no gradient: stepping it again - a second sweep over the parameter list without a backward
+		// pass in between - is refused and replaces nothing, whatever the optimizer stepped before
+		if k.Rng.Intn(3) == 0 {
+			stepped := *ptr
+			var err2 error
+			if p := call(func() { err2 = stepper.Update(ptr) }); p != nil || err2 == nil || *ptr != stepped {
+				k.Failf("a second Update of the tensor that the first Update left behind the pointer (no gradient): panic=%v err=%v replaced=%v (an error is required and nothing may be replaced)", p, err2, *ptr != stepped)
+				return
+			}
+			k.Count("second_updates_without_a_gradient_refused", 1)
+		}
 		// the previous tensor object and its gradient are left unchanged
 		if old.Gradient() != oldG {
 			k.Failf("Update changed the gradient object of the previous tensor")
